@@ -1,0 +1,11 @@
+//go:build verif
+
+package legacy
+
+// C15 (sufficient condition): route lookup writes neither the document nor the router.
+//@ func (*Router).FindRoute
+//@   modifies *
+// (Router.pathNode is lazily initialised by node(); FindRoute reaches that store only for a router
+// not built by NewRouter, whose nil document makes FindRoute fail earlier - see C09 contracts.)
+//@   preserves @C15 all(openapi3), all(routers), Router.doc, all(pathpattern)
+//@   preserves @C15 globals(openapi3), globals(routers), globals(legacy), globals(pathpattern)
